@@ -3,7 +3,7 @@
  *   corr <lowLimit> <dictLimit> <nbCorr> <cycleLog> <maxDist> <curr>   -> correction newCurrent lowLimit dictLimit nbCorr
  *   need <lowLimit> <dictLimit> <nbCorr> <cycleLog> <maxDist> <loadedDictEnd> <currStart> <currEnd>  -> 0|1 (this build's FREQUENTLY setting) freq=<0|1>
  *   reduce <preserveMark> <reducer> <v,v,...>   -> reduced values
- *   wear <frames> <frameSize> <level> <wlog> <ldm> <seed>  : frames of generated data through ONE reused CCtx; each compared with a fresh
+ *   wear <frames> <frameSize> <level> <wlog> <ldm> <seed> [id=val,...]  : frames of generated data through ONE reused CCtx; each compared with a fresh
  *        context's output and round-tripped -> ok frames=<n> bytes=<total> | FAIL ... */
 #include <stdio.h>
 #include <stdlib.h>
@@ -58,6 +58,7 @@ int main(void) {
         } else if (!strcmp(op, "wear")) {
             int frames = atoi(strtok(NULL, " ")); size_t fsz = (size_t)strtoull(strtok(NULL, " "), NULL, 10); int level = atoi(strtok(NULL, " ")), wlog = atoi(strtok(NULL, " ")), ldm = atoi(strtok(NULL, " "));
             unsigned long long seed = strtoull(strtok(NULL, " "), NULL, 10); int f, bad = 0; unsigned long long total = 0;
+            char* extra = strtok(NULL, " ");   /* optional: id=val,... advanced parameters set on both contexts after level / windowLog */
             unsigned char* src = (unsigned char*)malloc(fsz + 1); size_t cap = ZSTD_compressBound(fsz); unsigned char* a = (unsigned char*)malloc(cap); unsigned char* b = (unsigned char*)malloc(cap); unsigned char* d = (unsigned char*)malloc(fsz + 1);
             ZSTD_CCtx* reused = ZSTD_createCCtx(); ZSTD_DCtx* dctx = ZSTD_createDCtx();
             for (f = 0; f < frames && !bad; f++) {
@@ -65,7 +66,9 @@ int main(void) {
                 gen_data(src, n, seed + (unsigned long long)f, ldm);
                 cc[0] = reused; cc[1] = fresh;
                 for (k = 0; k < 2; k++) { ZSTD_CCtx_setParameter(cc[k], ZSTD_c_compressionLevel, lv); if (wlog) ZSTD_CCtx_setParameter(cc[k], ZSTD_c_windowLog, wlog);
-                    ZSTD_CCtx_setParameter(cc[k], ZSTD_c_enableLongDistanceMatching, ldm ? ZSTD_ps_enable : ZSTD_ps_disable); ZSTD_CCtx_setParameter(cc[k], ZSTD_c_checksumFlag, 1); }
+                    ZSTD_CCtx_setParameter(cc[k], ZSTD_c_enableLongDistanceMatching, ldm ? ZSTD_ps_enable : ZSTD_ps_disable); ZSTD_CCtx_setParameter(cc[k], ZSTD_c_checksumFlag, 1);
+                    if (extra && extra[0] != '-') { char pc[256]; char* sv = NULL; char* kv; strncpy(pc, extra, sizeof pc - 1); pc[sizeof pc - 1] = 0;
+                        for (kv = strtok_r(pc, ",", &sv); kv; kv = strtok_r(NULL, ",", &sv)) { int id, val; if (sscanf(kv, "%d=%d", &id, &val) == 2) ZSTD_CCtx_setParameter(cc[k], (ZSTD_cParameter)id, val); } } }
                 ca = ZSTD_compress2(reused, a, cap, src, n); cb = ZSTD_compress2(fresh, b, cap, src, n);
                 if (ZSTD_isError(ca) || ZSTD_isError(cb)) { printf("FAIL frame %d: compression error %s / %s\n", f, ZSTD_getErrorName(ca), ZSTD_getErrorName(cb)); bad = 1; }
                 else if (ca != cb || memcmp(a, b, ca)) { printf("FAIL frame %d (level %d): reused context output (%zu bytes) differs from fresh context output (%zu bytes) after %llu bytes through the context\n", f, lv, ca, cb, total); bad = 1; }
